@@ -887,10 +887,13 @@ fn eval_case_inner(line: &str) -> String {
         "CP" => {
             // Sign::width / height / create_page (no bus traffic)
             let bus: Rc<RefCell<dyn SignBus>> = Rc::new(RefCell::new(ScriptBus::new(vec![])));
-            let sign = Sign::new(bus.clone(), Address(3), SIGN_TYPES[num::<usize>(t[1])]);
+            // the address is derived from the case so that the accessor is seen to return what the object was made with
+            let addr = (num::<u16>(t[1]).wrapping_mul(4099)).wrapping_add(num::<u16>(t[2]).wrapping_mul(257));
+            let sign = Sign::new(bus.clone(), Address(addr), SIGN_TYPES[num::<usize>(t[1])]);
             match guarded(|| {
                 let p = sign.create_page(PageId(num(t[2])));
-                format!("{} {} {}", sign.width(), sign.height(), hex_of_bytes(p.as_bytes()))
+                let accessors_ok = sign.address() == Address(addr) && sign.sign_type() == SIGN_TYPES[num::<usize>(t[1])] && (sign.width(), sign.height()) == sign.sign_type().dimensions() && p.id() == PageId(num(t[2])) && (p.width(), p.height()) == (sign.width(), sign.height());
+                format!("{} {} {}{}", sign.width(), sign.height(), hex_of_bytes(p.as_bytes()), if accessors_ok { "" } else { " ACCESSORS-DISAGREE" })
             }) {
                 Some(s) => s,
                 None => "PANIC".to_string(),
